@@ -800,7 +800,8 @@ fn take_fixed_size_list<IndexType: ArrowPrimitiveType>(
     };
     let nulls = NullBuffer::from_unsliced_buffer(null_buf, indices.len());
 
-    FixedSizeListArray::try_new(field, length as i32, taken, nulls)
+    // the length cannot be derived from the child when the list size is 0
+    FixedSizeListArray::try_new_with_length(field, length as i32, taken, nulls, indices.len())
 }
 
 /// The take kernel implementation for `FixedSizeBinaryArray`.
@@ -829,7 +830,8 @@ fn take_fixed_size_binary<IndexType: ArrowPrimitiveType>(
     let value_nulls = take_nulls(values.nulls(), indices);
     let final_nulls = NullBuffer::union(value_nulls.as_ref(), indices.nulls());
 
-    return FixedSizeBinaryArray::try_new(size, result_buffer, final_nulls);
+    // the length cannot be derived from the values when the value size is 0
+    return FixedSizeBinaryArray::try_new_with_len(size, result_buffer, final_nulls, indices.len());
 
     /// Implementation of the take kernel for fixed size binary arrays.
     #[inline(never)]
